@@ -419,3 +419,29 @@ func first(a, _ []byte) []byte { return a }
 //@   ensures[hdr] hdrSame((*ref).pointer, n16)
 //@   ensures[replaced] (*ref).pointer == n16 || (fresh((*ref).pointer) && Zero16(n16))
 //@   ensures[frame] frame(n16, ref.obj, (*ref).pointer) && frameSlot(ref)
+
+// node4.deleteChild: with three or more children it is an ordinary removal.
+// With exactly two, the node is dissolved: the slot is relinked to the
+// surviving child; if that child is an inner node its compressed path becomes
+// path(n4) ++ [branch byte] ++ path(child) (length exact, first 10 bytes
+// inline), and n4 is zeroed and pooled.
+//@ spec survIdx(n, b) = ite(lane(n.keys, 0) == b, 1, 0)
+//@ spec innerChildOK(n, c, ref) = c.pointer != nil && c.pointer != n && c.pointer != ref.obj && allocated(c.pointer) && as(node, c.pointer).prefixLen + n.prefixLen + 1 < 4294967296
+
+//@ func (*node4).deleteChild
+//@   requires n4 != nil && atype(n4) == typeid(node4) && Inv4(n4) && refIs(ref, n4, 0)
+//@   requires has4(n4, b) && n4.childrenLen >= 2
+//@   requires implies(n4.childrenLen == 2 && n4.children[survIdx(n4, b)].tag != 4, innerChildOK(n4, n4.children[survIdx(n4, b)], ref))
+//@   let sP = n4.children[survIdx(n4, b)].pointer
+//@   let sT = n4.children[survIdx(n4, b)].tag
+//@   let sB = lane(n4.keys, survIdx(n4, b))
+//@   let P = n4.prefixLen
+//@   let L = as(node, n4.children[survIdx(n4, b)].pointer).prefixLen
+//@   ensures[view] implies(old(n4.childrenLen) > 2, forallp(x, 0, 256, lookP(*ref, x) == ite(x == b, nil, old(lookP4(n4, x))) && lookT(*ref, x) == ite(x == b, 0, old(lookT4(n4, x)))))
+//@   ensures[inv] implies(old(n4.childrenLen) > 2, (*ref).pointer == n4 && (*ref).tag == 0 && Inv4(n4) && n4.childrenLen >= 2)
+//@   ensures[hdr] implies(old(n4.childrenLen) > 2, hdrSame(n4, n4))
+//@   ensures[merge_link] implies(old(n4.childrenLen) == 2, (*ref).pointer == sP && (*ref).tag == sT && Zero4(n4))
+//@   ensures[merge_len] implies(old(n4.childrenLen) == 2 && sT != 4, as(node, sP).prefixLen == P + 1 + L)
+//@   ensures[merge_path] implies(old(n4.childrenLen) == 2 && sT != 4, forall(k, 0, 10, implies(k < P + 1 + L, as(node, sP).prefix[k] == ite(k < P, old(n4.prefix[k]), ite(k == P, sB, old(as(node, sP).prefix[k - P - 1]))))))
+//@   ensures[merge_child] implies(old(n4.childrenLen) == 2 && sT != 4, sameObjExcept(sP, "B", "node.prefixLen") && sameBytes(sP, 0, 1024))
+//@   ensures[frame] implies(old(n4.childrenLen) > 2 || sT == 4, frame(n4, ref.obj)) && implies(old(n4.childrenLen) == 2 && sT != 4, frame(n4, ref.obj, sP)) && frameSlot(ref)
